@@ -105,7 +105,68 @@ def check_region(res, ctx, rule_state, rule_host, keys, label, lints=('identity'
                           case=' -> '.join(fmt(k) for k in ev.chain[-4:]), func=ev.key[1])
     from . import pitfalls
     n_events += pitfalls.check(res, ctx, keys, label, lints)
+    rule = rule_state if rule_state else rule_host
+    # the other half of a lasting write: a function of this region consults it
+    from . import ambient
+    ambient.check(res, ctx, rule, keys, label)
+    # functions of this region are in the registry when the package has been imported, not from the first evaluation that asks
+    check_registration_at_import(res, ctx, rule, keys, label)
     return n_events
+
+
+def registering_modules(model):
+    return sorted(mm.name for mm in model.modules.values()
+                  if any(isinstance(n_, ast.Attribute) and n_.attr == 'register_for' for n_ in ast.walk(mm.tree)) and
+                  not any(isinstance(x, ast.FunctionDef) and x.name == 'register_for' for x in ast.walk(mm.tree)))
+
+
+def imports_of(model, rname):
+    """(top, lazy): import statements of module ``rname`` at module level / inside a function (importlib calls count as lazy)."""
+    leaf = rname.split('.')[-1]
+    top, lazy = [], []
+    for mm in model.modules.values():
+        if mm.name == rname:
+            continue
+        for st in ast.walk(mm.tree):
+            names = []
+            dynamic = False
+            if isinstance(st, ast.ImportFrom):
+                names = [a.name for a in st.names] + ([st.module.split('.')[-1]] if st.module else [])
+            elif isinstance(st, ast.Import):
+                names = [a.name.split('.')[-1] for a in st.names]
+            elif isinstance(st, ast.Call) and ((sa.call_name(st) or '').endswith('import_module') or sa.call_name(st) == '__import__'):
+                names = [a.value.split('.')[-1] for a in st.args if isinstance(a, ast.Constant) and isinstance(a.value, str)]
+                dynamic = not names
+            if dynamic:
+                lazy.append((mm, st, True))
+                continue
+            if leaf not in names:
+                continue
+            fn_ = mm.enclosing_function(st)
+            (lazy if fn_ is not None else top).append((mm, st, False))
+    return top, lazy
+
+
+def check_registration_at_import(res, ctx, rule, keys, label):
+    model = ctx.model
+    mods = set(k[0] for k in keys)
+    for rname in registering_modules(model):
+        if rname not in mods:
+            continue
+        top, lazy = imports_of(model, rname)
+        if top:
+            res.ob(rule, rname, 'the registering module is imported when the package is imported', True)
+            continue
+        named = [x for x in lazy if not x[2]] or lazy
+        if not named:
+            continue        # imported by nobody we can see: the registry model would not list its functions either
+        mm, st, _ = named[0]
+        res.ob(rule, rname, 'the registering module is imported when the package is imported', False, src(st)[:60])
+        res.violation(rule, '%s:lazy-registration' % rname, mm.where(st),
+                      'the module %s registers its functions when it is imported, and no module imports it at import time (only %s in %s '
+                      'does, at run time): whether %s is found under every one of its names depends on what was evaluated before - the '
+                      'registry fills during the first evaluations' % (rname, src(st)[:50], mm.qualname_of(st), label),
+                      func=mm.qualname_of(st))
 
 
 def _norm(s):
@@ -123,6 +184,8 @@ def check_memo(res, ctx, rule, keys, label):
         m, f = ctx.cg.funcs[k]
         for d in getattr(f, 'decorator_list', []):
             bad, why = memo_decorator(m, d, model)
+            if bad is None:
+                bad, why = handmade_memo(m, d, model)
             if bad is None:
                 continue
             n += 1
@@ -143,6 +206,17 @@ def check_memo(res, ctx, rule, keys, label):
                 elif _is_memo_name(m, inner, model) and node.value.args and isinstance(node.value.args[0], (ast.Name, ast.Attribute)):
                     dec = node.value
                     target = node.value.args[0]
+                if dec is None and node.value.args and isinstance(node.value.args[0], (ast.Name, ast.Attribute)):
+                    # name = handmade_cache(func)
+                    hb, hw = handmade_memo(m, inner, model)
+                    r = model.resolve_attr_chain(m, node.value.args[0])
+                    if hb is not None and r and r[0] == 'func' and (r[1].name, r[1].qualname_of(r[2])) in keys:
+                        n += 1
+                        res.ob(rule, '%s:%s' % (m.name, src(node.targets[0])), 'wrapped %s' % src(node.value), not hb, hw)
+                        if hb:
+                            res.violation(rule, '%s:%s:memo-wrapper' % (m.name, src(node.targets[0])), m.where(node),
+                                          '%s is memoised (%s): %s' % (label, src(node.value), hw))
+                    continue
                 if dec is None or target is None:
                     continue
                 r = model.resolve_attr_chain(m, target)
@@ -154,6 +228,78 @@ def check_memo(res, ctx, rule, keys, label):
                         res.violation(rule, '%s:%s:memo-wrapper' % (m.name, src(node.targets[0])), m.where(node),
                                       '%s is memoised (%s): %s' % (label, src(node.value), why))
     return n
+
+
+STORE_METHODS = ('setdefault', 'update', 'append', 'add', 'insert', 'extend', '__setitem__')
+EVICT_METHODS = ('pop', 'popitem', 'clear', 'remove', 'discard', 'popleft')
+
+
+def handmade_memo(m, d, model):
+    """A decorator defined in the package whose wrapper keeps results in a container created when the function is decorated (the
+    decorator's own local, a default argument, a module-level container): a cache that lives as long as the function.
+    -> (bad?, why) ; (None, None) when ``d`` is not such a decorator."""
+    name_node = d.func if isinstance(d, ast.Call) else d
+    r = model.resolve_attr_chain(m, name_node) if isinstance(name_node, (ast.Name, ast.Attribute)) else None
+    if r is None or r[0] != 'func':
+        return None, None
+    dm, dec = r[1], r[2]
+    inner = [n for n in ast.walk(dec) if isinstance(n, (ast.FunctionDef, ast.Lambda)) and n is not dec]
+    if not inner:
+        return None, None
+    # containers born in the decorator's own scopes (not in the innermost wrapper that runs per call)
+    born = {}
+    scopes = [dec] + [n for n in inner if any(isinstance(x, (ast.FunctionDef, ast.Lambda)) and x is not n for x in ast.walk(n))]
+    for sc in scopes:
+        for st in ast.walk(sc):
+            if isinstance(st, ast.Assign) and len(st.targets) == 1 and isinstance(st.targets[0], ast.Name):
+                v = st.value
+                fresh = isinstance(v, (ast.Dict, ast.List, ast.Set)) or (
+                    isinstance(v, ast.Call) and (sa.call_name(v) or '').split('.')[-1] in
+                    ('dict', 'list', 'set', 'OrderedDict', 'defaultdict', 'deque', 'WeakValueDictionary', 'WeakKeyDictionary'))
+                if fresh and dm.enclosing_function(st) is sc:
+                    born[st.targets[0].id] = st
+    for c_name, c_node in dm.constants.items():
+        if isinstance(c_node, (ast.Dict, ast.List, ast.Set)) and not (getattr(c_node, 'keys', None) or getattr(c_node, 'elts', None)):
+            born.setdefault(c_name, c_node)
+    wrappers = [n for n in inner if n not in scopes or n is not dec]
+    for w in inner:
+        local = set(sa.params(w)) if isinstance(w, ast.FunctionDef) else set(a.arg for a in w.args.args)
+        stores, evicts, typed = [], False, False
+        for n in ast.walk(w):
+            tgt = None
+            if isinstance(n, ast.Assign):
+                for t in n.targets:
+                    if isinstance(t, ast.Subscript) and isinstance(t.value, ast.Name):
+                        tgt = t.value.id
+                    for t2 in ast.walk(t):       # chained:  value = known[args] = fn(...)
+                        if isinstance(t2, ast.Subscript) and isinstance(t2.value, ast.Name) and isinstance(t2.ctx, ast.Store):
+                            tgt = t2.value.id
+            elif isinstance(n, ast.Call) and isinstance(n.func, ast.Attribute) and isinstance(n.func.value, ast.Name):
+                if n.func.attr in STORE_METHODS:
+                    tgt = n.func.value.id
+                elif n.func.attr in EVICT_METHODS and n.func.value.id in born:
+                    evicts = True
+            elif isinstance(n, ast.Delete):
+                for t in n.targets:
+                    if isinstance(t, ast.Subscript) and isinstance(t.value, ast.Name) and t.value.id in born:
+                        evicts = True
+            if isinstance(n, ast.Call) and sa.call_name(n) == 'type':
+                typed = True
+            if tgt is not None and tgt in born and tgt not in local:
+                stores.append((tgt, n))
+        if stores:
+            tgt, n = stores[0]
+            if evicts and typed:
+                return False, 'hand-made cache %s in %s: evicts entries and keys on the argument types' % (tgt, dec.name)
+            why = []
+            if not evicts:
+                why.append('it is never emptied, so memory grows with every distinct argument')
+            if not typed:
+                why.append('its keys compare by == / hash, so 1, 1.0 and TRUE (or calls that differ only in what the key leaves out) '
+                           'share one entry and the answer depends on which was evaluated first')
+            return True, 'the decorator %s keeps results in %s, a container that lives as long as the function (%s); %s' % (
+                dec.name, tgt, src(n)[:50], '; '.join(why))
+    return None, None
 
 
 def _is_memo_name(m, node, model):
